@@ -54,9 +54,9 @@ package lists
 //@ func cmdPrepend [C38]
 //@   check none
 //@   requires p != nil
-//@   at call (lang/stdio.Io).ReadArrayWithType#* modifies nothing
+//@   at call (lang/stdio.Io).ReadArrayWithType#* modifies array, cachedDt
 //@   at call (*Parameters).StringArray#* modifies nothing
-//@   loop 1 invariant array == old@pre1(array) && params == old@pre1(params) && len(new) == $idx + 1 && $idx + 1 <= len(params) && fresh(new)
+//@   loop 1 invariant array == old@pre1(array) && params == old@pre1(params) && len(new) == $idx + 1 && $idx + 1 <= len(params) && disjoint(new, array)
 //@   loop 1 invariant forall(k, 0, len(new), new[k] == $cgt(any(params[k]), cachedDt))
 //@   loop 1 invariant forall(k, 0, len(array), array[k] == old@pre1(array[k]))
 //@   at call MarshalData#1 assert typeis(arg2, []any) && len(unbox(arg2, []any)) == len(params) + len(old@pre1(array))
@@ -67,7 +67,7 @@ package lists
 //@ func cmdAppend [C38]
 //@   check none
 //@   requires p != nil
-//@   at call (lang/stdio.Io).ReadArrayWithType#* modifies nothing
+//@   at call (lang/stdio.Io).ReadArrayWithType#* modifies array, cachedDt
 //@   at call (*Parameters).StringArray#* modifies nothing
 //@   loop 1 invariant params == old@pre1(params) && len(array) == len(old@pre1(array)) + $idx + 1 && $idx + 1 <= len(params)
 //@   loop 1 invariant forall(k, 0, len(old@pre1(array)), array[k] == old@pre1(array[k]))
